@@ -409,33 +409,83 @@ func (it *Interp) textModel(st *state, name string, c *ssa.CallCommon, args []Va
 		}
 		return it.constBV(uint64(int64(last)), 64).signed(), true
 	case "fmt.Sprintf":
-		// "%02d:%02d" of two small non-negative integers: two decimal digits each (the model
-		// records the obligation that each argument is below 100)
+		// formats made of literal text and %d verbs with the flags '+', '0' and a width: each
+		// number is printed with exactly (width - sign) digits; the model records the obligations
+		// that it has no more digits than that and, without '+', that it is not negative
 		f, ok := args[0].(StrV)
-		if !ok || !f.Known || f.S != "%02d:%02d" {
+		if !ok || !f.Known {
 			return OpaqueV{"formatted text"}, true
 		}
 		va, ok := args[1].(SliceV)
-		if !ok || va.Len != 2 {
+		if !ok {
 			return OpaqueV{"formatted text"}, true
 		}
 		out := StrV{Sym: true}
-		for i := 0; i < 2; i++ {
-			v, ok := it.load(st, it.sliceElemPtr(va, i), types.Typ[types.Int]).(BV)
+		argi := 0
+		for i := 0; i < len(f.S); i++ {
+			if f.S[i] != '%' {
+				out.Chars = append(out.Chars, it.constBV(uint64(f.S[i]), 8))
+				continue
+			}
+			j := i + 1
+			plus, zero, width := false, false, 0
+			if j < len(f.S) && f.S[j] == '+' {
+				plus = true
+				j++
+			}
+			if j < len(f.S) && f.S[j] == '0' {
+				zero = true
+				j++
+			}
+			for j < len(f.S) && f.S[j] >= '1' && f.S[j] <= '9' {
+				width = width*10 + int(f.S[j]-'0')
+				j++
+			}
+			if j >= len(f.S) || f.S[j] != 'd' || !zero || width == 0 || argi >= va.Len {
+				return OpaqueV{"formatted text"}, true
+			}
+			v, ok := it.load(st, it.sliceElemPtr(va, argi), types.Typ[types.Int]).(BV)
+			argi++
 			if !ok || v.HasTop() {
 				return OpaqueV{"formatted text"}, true
 			}
-			v.Signed = false
-			it.Obligations = append(it.Obligations, it.ult(v, it.constBV(100, v.W)))
-			q, r := it.udivConst(v, 10)
-			for _, d := range []BV{q, r} {
+			sgn := v.B[v.W-1]
+			digits := width
+			mag := BV{W: v.W, B: v.B}
+			if plus {
+				digits--
+				neg := it.sub(it.constBV(0, v.W), mag)
+				m2 := BV{W: v.W, B: make([]*Node, v.W)}
+				sc := it.constBV(0, 8)
+				pc, mc := it.constBV('+', 8), it.constBV('-', 8)
+				for k := range m2.B {
+					m2.B[k] = it.T.Mux(sgn, neg.B[k], mag.B[k])
+				}
+				for k := 0; k < 8; k++ {
+					sc.B[k] = it.T.Mux(sgn, mc.B[k], pc.B[k])
+				}
+				mag = m2
+				out.Chars = append(out.Chars, sc)
+			} else {
+				it.Obligations = append(it.Obligations, it.T.Not(sgn))
+			}
+			if digits < 1 || digits > 6 {
+				return OpaqueV{"formatted text"}, true
+			}
+			it.Obligations = append(it.Obligations, it.ult(mag, it.constBV(pow10(digits), mag.W)))
+			var ds []BV
+			rest := mag
+			for k := 0; k < digits; k++ {
+				q, r := it.udivConst(rest, 10)
+				ds = append([]BV{r}, ds...)
+				rest = q
+			}
+			for _, d := range ds {
 				ch := it.constBV(0x30, 8)
 				copy(ch.B[0:4], d.B[0:4])
 				out.Chars = append(out.Chars, ch)
 			}
-			if i == 0 {
-				out.Chars = append(out.Chars, it.constBV(':', 8))
-			}
+			i = j
 		}
 		return out, true
 	case "strings.Join", "strconv.FormatUint", "strconv.Itoa", "strconv.FormatInt":
